@@ -77,8 +77,8 @@ func VerifC06Upstream() { verifC06Upstream(17, 17, 6) }
 
 // VerifC06UpstreamLong is the thorough variant.
 //
-//verif:harness name=H06b-upstream-long tier=thorough bounds="as H06b-upstream with replies of 17..19 bytes and 8 stale bytes" reach=decoded,rejected maxpaths=2000000 fanout=70
-func VerifC06UpstreamLong() { verifC06Upstream(17, 19, 8) }
+//verif:harness name=H06b-upstream-long tier=thorough bounds="as H06b-upstream with replies of 17..18 bytes and 8 stale bytes" reach=decoded,rejected maxpaths=2000000 fanout=70
+func VerifC06UpstreamLong() { verifC06Upstream(17, 18, 8) }
 
 func verifC06Upstream(lo, hi, nstale int) {
 	network := NetworkUDP
